@@ -518,6 +518,60 @@ def v9_required_attribute_defaults(run, data):
               "default to None" % n, "")
 
 
+def v10_duration_needs_content(run):
+    run.rule("V10", "durations: parse_duration looks at the character at the "
+             "current position in every round before it may leave the "
+             "designator loop - that dereference (IndexError past the end) is "
+             "what rejects a duration that ends right after the 'P' ('P', "
+             "'-P'); an end-of-input exit placed before it accepts them")
+    m = run.model
+    fi = m.func("time_util.parse_duration")
+    cfg = cfg_of(fi, m)
+    p = [a for a in fi.params()][0]
+
+    def derefs(n):
+        if n.kind in ("true", "false", "exc", "handler", "join"):
+            return False
+        for top in cfg.own_exprs(n):
+            for x in ast.walk(top):
+                if isinstance(x, ast.Subscript) and \
+                        isinstance(x.value, ast.Name) and x.value.id == p and \
+                        not isinstance(x.slice, ast.Slice) and \
+                        isinstance(x.ctx, ast.Load):
+                    return True
+        return False
+    loops = [n for n in cfg.nodes if n.kind == "iter" and
+             isinstance(n.ast.iter, ast.Name) and n.ast.iter.id == "D_FORMAT"]
+    run.require(len(loops) == 1, "parse_duration: the loop over D_FORMAT "
+                "vanished")
+    it = loops[0]
+    obl = {n.id for n in cfg.nodes if derefs(n)}
+    # an explicit refusal of "nothing after the P" in front of the loop does
+    # the same job
+    for t in cfg.by_kind("test"):
+        tb = [b for b in cfg.succ[t.id] if cfg.nodes[b].kind == "true"]
+        if cfg.dominates(t.id, it.id) and tb and \
+                only_raises_from(cfg, tb[0]) and \
+                "index" in {x.id for x in ast.walk(t.ast)
+                            if isinstance(x, ast.Name)}:
+            obl.add(it.id)
+    leave = {n.id for n in cfg.nodes
+             if n.kind in ("exhausted", "return_exit") or
+             (n.kind == "for" and n.ast is it.ast)}
+    excs = {n.id for n in cfg.nodes if n.kind == "exc"}
+    wit = None
+    if it.id not in obl:
+        for tgt in sorted(leave):
+            wit = wit or cfg.path(it.id, tgt, obl | excs)
+    run.check(wit is None, "V10", fi.qual + "::position-examined-each-round",
+              "every round dereferences %s[index] before the loop can be left"
+              % p,
+              "the designator loop can be left (or go round) without looking "
+              "at the current character: a duration that ends after the 'P' "
+              "is no longer refused", fi.loc(it.ast),
+              witness=cfg.describe_path(wit) if wit else None)
+
+
 def check(run):
     run.explanation = (
         "C13: exhaustive table rules over all schema classes (every declared "
@@ -538,5 +592,6 @@ def check(run):
     v6_validators_raise(run, data)
     v7_receive_paths(run)
     v9_required_attribute_defaults(run, data)
+    v10_duration_needs_content(run)
     from ..common_rules import memo_rule
     memo_rule(run, "V8", {"validate"}, "validation constraints")
